@@ -107,6 +107,19 @@ pub fn drive(args: &[String]) -> i32 {
             jobs.push((src.clone(), (i * 7 + k * 29) % cfgs.len(), "generated"));
         }
     }
+    // imported names (MC_NestChains EmitImported): a type of every name shape imported and used by a second module, under the
+    // wildcard-import and no_std options
+    if let Some(named) = util::arg(args, "--named") {
+        for s in util::read_ndjson(named) {
+            let t = Table::from_json(&s);
+            let src: Vec<String> = (1..=t.mods.tagdef.len()).map(|m| t.module_text(m, None)).collect();
+            for (j, c) in cfgs.iter().enumerate() {
+                if c["cfg"]["imports"] == 0 && c["cfg"]["ann"] == "default" && c["cfg"]["opaque"] == true && c["cfg"]["from"] == false {
+                    jobs.push((src.clone(), j, "imported-names"));
+                }
+            }
+        }
+    }
     let default_cfg = cfgs.iter().find(|c| c["cfg"]["opaque"] == true && c["cfg"]["wild"] == false && c["cfg"]["from"] == false && c["cfg"]["nostd"] == false
                                        && c["cfg"]["imports"] == 0 && c["cfg"]["ann"] == "default").cloned().expect("default configuration");
     let idx: Vec<usize> = (0..jobs.len()).collect();
